@@ -164,6 +164,11 @@ type c13Case struct {
 	T       int          `json:"timeout_ticks"`
 	Tries   int          `json:"tries"`
 	Servers [][]c13Reply `json:"servers"` // per server: its replies
+	// Cfg: other documented configurations of the client, none of which changes the exchange rules: 1..3 the address
+	// the client sends its broadcasts to is configured (v4 WithServerAddr / v6 WithBroadcastAddr): server 0's, server
+	// 1's, an address no server has; 4 (v4) hardware address through WithHWAddr over another constructor address;
+	// 5 debug logging
+	Cfg int `json:"cfg,omitempty"`
 }
 
 type c13Delivery struct {
@@ -271,7 +276,15 @@ func c13Run(t *testing.T, c c13Case) *c13History {
 			}
 		}
 		if c.V6 {
-			cl, err := nclient6.NewWithConn(conn, cliHW, nclient6.WithTimeout(time.Duration(c.T)*tk), nclient6.WithRetry(c.Tries))
+			o6 := []nclient6.ClientOpt{nclient6.WithTimeout(time.Duration(c.T) * tk), nclient6.WithRetry(c.Tries)}
+			switch c.Cfg {
+			case 1, 2, 3:
+				o6 = append(o6, nclient6.WithBroadcastAddr(&net.UDPAddr{IP: net.ParseIP("2001:db8::547"), Port: 547 + c.Cfg}))
+			case 5:
+				defer quietStderr()()
+				o6 = append(o6, nclient6.WithDebugLogger(), nclient6.WithLogDroppedPackets())
+			}
+			cl, err := nclient6.NewWithConn(conn, cliHW, o6...)
 			if err != nil {
 				panic(err)
 			}
@@ -300,7 +313,20 @@ func c13Run(t *testing.T, c c13Case) *c13History {
 			synctest.Wait()
 			return
 		}
-		cl, err := nclient4.NewWithConn(conn, cliHW, nclient4.WithTimeout(time.Duration(c.T)*tk), nclient4.WithRetry(c.Tries))
+		opts := []nclient4.ClientOpt{nclient4.WithTimeout(time.Duration(c.T) * tk), nclient4.WithRetry(c.Tries)}
+		hw := cliHW
+		switch c.Cfg {
+		case 1, 2:
+			opts = append(opts, nclient4.WithServerAddr(&net.UDPAddr{IP: serverIP(c.Cfg - 1), Port: 67}))
+		case 3:
+			opts = append(opts, nclient4.WithServerAddr(&net.UDPAddr{IP: net.IP{10, 77, 200, 1}, Port: 6767}))
+		case 4:
+			hw = net.HardwareAddr{2, 0xfe, 0xfe, 0xfe, 0xfe, 1}
+			opts = append(opts, nclient4.WithHWAddr(cliHW))
+		case 5:
+			opts = append(opts, nclient4.WithLogger(nclient4.DebugLogger{Printfer: cliSink{}}))
+		}
+		cl, err := nclient4.NewWithConn(conn, hw, opts...)
 		if err != nil {
 			panic(err)
 		}
@@ -857,6 +883,7 @@ var c13 = newChk("C13", "exchange-model",
 func genC13() *rapid.Generator[c13Case] {
 	return rapid.Custom(func(t *rapid.T) c13Case {
 		c := c13Case{V6: rapid.IntRange(0, 2).Draw(t, "v6") == 0, Op: rapid.IntRange(0, 1).Draw(t, "op"), T: 16 * rapid.SampledFrom([]int{4, 8}).Draw(t, "T16"), Tries: rapid.IntRange(1, 3).Draw(t, "tries")}
+		c.Cfg = rapid.SampledFrom([]int{0, 0, 0, 1, 2, 3, 4, 5}).Draw(t, "cfg")
 		ns := rapid.IntRange(0, 3).Draw(t, "nservers")
 		used := map[int]bool{}
 		for s := 0; s < ns; s++ {
